@@ -29,6 +29,8 @@ class Knobs:
         self.no_state_names = False  # code never mentions state names (C17)
         self.avoid_nondet = True     # transitions of one state on one event get distinct priorities
         self.shared_code = 0.06      # an action whose source text is also a plausible guard / condition text
+        self.empty_event = 0.0       # probability that a trigger / a queued event is the event named by the empty string
+        self.failing = 0.0           # probability that a code fragment contains a statement that raises now and then
         self.prio_pool = [0, 0, 0, 1, -1, 2]     # priorities of transitions …
         self.prio_alt = [-3, -2, -1, 0, 1, 2, 3, 4, 5, 6, 7]   # … and what a colliding one is redrawn from
         self.chain = 0               # the first `chain` levels are compound states with a single composite child
@@ -46,6 +48,7 @@ class ChartGen:
         self.n = 0
         self.used_prio = {}
         self.prio_counter = 0
+        self.bad_construction = []
 
     def fresh_prio(self, src):
         self.prio_counter += 1
@@ -75,6 +78,9 @@ class ChartGen:
                 opts += ['c%d' % i for i in range(k.cflags)]
             return r.choice(opts)
         stmts = []
+        if k.failing and r.random() < k.failing:
+            # raises ZeroDivisionError whenever x is a multiple of three
+            stmts.append('y = 10 // (x % 3)')
         for _ in range(r.randint(1, 2)):
             c = r.random()
             if c < 0.3:
@@ -232,6 +238,8 @@ class ChartGen:
             if tgt is not None and k.wf and not self.ok_target(src, tgt):
                 continue
             ev = None if r.random() < k.p_eventless else r.choice(EVENTS)
+            if ev is not None and k.empty_event and r.random() < k.empty_event:
+                ev = ''
             guard = self.guard_code(ev is not None) if (r.random() < k.p_guard or ev is None) else None
             pr = r.choice(k.prio_pool)
             if k.avoid_nondet:
@@ -239,7 +247,11 @@ class ChartGen:
                 while pr in used:
                     pr = r.choice(k.prio_alt)
                 used.add(pr)
-            t = Transition(src, tgt, event=ev, guard=guard, action=self.action_code(True), priority=pr)
+            act = self.action_code(True)
+            t = Transition(src, tgt, event=ev, guard=guard, action=act, priority=pr)
+            if (t.source, t.target, t.event, t.guard, t.action, t.priority) != (src, tgt, ev, guard, act, pr):
+                # the object does not say what it was given
+                self.bad_construction.append([src, tgt, ev, guard, act, pr])
             self.contracts(t)
             sc.add_transition(t)
             if k.twins and r.random() < k.twins and (k.flags or ev is not None):
@@ -320,6 +332,17 @@ def add_mutables(rnd, sc, cell=True):
         if o is not root and rnd.random() < 0.4:
             # (`__old__.stock` is a shallow copy: its list is the live one, whatever was appended since)
             o.invariants.append(rnd.choice(invs))
+
+
+def construction_faults(specs):
+    """which of the transitions [source, target, event, guard, action, priority] do not hold what they are given"""
+    out = []
+    for src, tgt, ev, guard, act, pr in specs:
+        t = Transition(src, tgt, event=ev, guard=guard, action=act, priority=pr)
+        got = [t.source, t.target, t.event, t.guard, t.action, t.priority]
+        if got != [src, tgt, ev, guard, act, pr]:
+            out.append('Transition(%r, %r, event=%r, guard=%r, action=%r, priority=%r) holds %r' % (src, tgt, ev, guard, act, pr, got))
+    return out
 
 
 def warm(sc):
@@ -465,6 +488,8 @@ def gen_ops(r, knobs, n_ops, slot=0, t0=0):
             if r.random() < 0.2:
                 data.append(['delay', r.randint(0, 3)])
             name = r.choice(EVENTS) if r.random() < 0.9 else 'zz'
+            if getattr(knobs, 'empty_event', 0) and r.random() < 2 * knobs.empty_event:
+                name = ''
             if getattr(knobs, 'clock_moves', 0) and r.random() < knobs.clock_moves:
                 # the clock moves between two steps: queue() must use the *interpreter's* time
                 t += r.choice([1, 2, 3])
